@@ -86,4 +86,20 @@ CHECKS = {
         legs=[dict(name=k, run="^Test%s$" % n, quick=q, thorough=q * 10, shards=2) for (k, n, q) in [
             ("mem", "Mem", 250), ("mount", "Mount", 250), ("osfs", "OSFS", 120), ("openonly", "OpenOnly", 120), ("subsub", "SubSub", 150)]],
     ),
+    "C06": dict(
+        pkg="c06", level="exploration",
+        rule=("route leg: a configuration of 0..4 mount points from {a, ab, b, a/b, a/b/c, ab/a} (nested ones inside the outer mount), each a distinct seeded mem.FS, built twice; rapid state machine over the C01 alphabet plus Open "
+              "on paths of depth <=4 over {a,ab,b,c}: an independent longest-whole-element-prefix router in the harness selects (FS, rest); Mount(path) is evaluated 8 times (sync.Map iteration orders) and must agree; the op runs through "
+              "mount.FS in world 1 and directly on the selected FS at rest in world 2; results and the snapshots of ALL constituent file systems must be equal. Renames are routed per name; a cross-mount rename must either move a regular "
+              "file (same bytes and mode at the destination only) or fail leaving everything unchanged, directories => ErrNotImplemented. addmount leg: sequences of mkdir/file/AddMount vs a model (valid non-root existing directory, not yet a "
+              "mount point) incl. MountPoints(). concurrent leg: 2..8 goroutines AddMount the same point with the root FS's Open gated so the first arriver is held inside the check-then-store window. "
+              "non-trivial = a path below the longer of two prefix-related mount points, or a cross-mount rename, or >=2 AddMount attempts with a refusal"),
+        assumptions=["mount-table iteration orders are sampled (Go randomises sync.Map.Range), not enumerated", "the concurrent leg owns only the window around the root FS Open call inside addMount; the rest is free-running (and run under -race in thorough)"],
+        legs=[
+            dict(name="route", run="^TestRoute$", quick=500, thorough=4000, shards=8),
+            dict(name="addmount", run="^TestAddMount$", quick=300, thorough=3000, shards=2),
+            dict(name="concurrent", run="^TestConcurrentAddMount$", quick=60, thorough=400, shards=2),
+            dict(name="concurrent", run="^TestConcurrentAddMount$", thorough=200, shards=1, race=True, tiers=("thorough",)),
+        ],
+    ),
 }
